@@ -50,6 +50,8 @@ type Box struct {
 	// ClosedStdout: the next run's standard output is a pipe nobody reads from any more (`spok ... | head -0`):
 	// the first thing spok prints kills it. Reset after one run.
 	ClosedStdout bool
+	// FullStdout: the next run's standard output is /dev/full (every write fails with ENOSPC). Reset after one run.
+	FullStdout bool
 	// Cpus: when set (e.g. "0,1"), spok is started under `taskset -c <Cpus>` — it then sees that many CPUs
 	Cpus string
 }
@@ -230,7 +232,9 @@ func (b *Box) RunWrapped(wrapper []string, cwd string, env []string, timeout tim
 	argv := append(append(append([]string(nil), wrapper...), b.Spok), args...)
 	cmd := exec.CommandContext(cx, argv[0], argv[1:]...)
 	cmd.Dir = cwd
-	cmd.Env = append([]string{"HOME=" + b.Home, "PATH=/usr/local/bin:/usr/bin:/bin", "LANG=C", "TERM=dumb", "NO_COLOR=1"}, env...)
+	// PWD names the working directory the way the caller spelled it, as a shell would set it (a
+	// directory reached through a symbolic link keeps its logical name); callers may override it
+	cmd.Env = append([]string{"HOME=" + b.Home, "PATH=/usr/local/bin:/usr/bin:/bin", "LANG=C", "TERM=dumb", "NO_COLOR=1", "PWD=" + cwd}, env...)
 	attr := &syscall.SysProcAttr{Setpgid: true}
 	if b.Drop {
 		attr.Credential = &syscall.Credential{Uid: nobody, Gid: nobody, NoSetGroups: false, Groups: []uint32{}}
@@ -245,6 +249,13 @@ func (b *Box) RunWrapped(wrapper []string, cwd string, env []string, timeout tim
 			_ = pr.Close()
 			cmd.Stdout = pw
 			defer pw.Close()
+		}
+	}
+	if b.FullStdout {
+		b.FullStdout = false
+		if f, ferr := os.OpenFile("/dev/full", os.O_WRONLY, 0); ferr == nil {
+			cmd.Stdout = f
+			defer f.Close()
 		}
 	}
 	err := cmd.Run()
